@@ -1,4 +1,6 @@
 import OH.Proofs.SynNum
+import OH.Proofs.SynRule9
+import OH.Model.PrintableOut
 /-
 C06 — printed expressions parse back to an equivalent expression.
 Property theorems only.  The printers are OH/Model/Print.lean (one definition per `Display`), the
@@ -33,5 +35,50 @@ theorem C06_day_offset_roundtrip (off : Int) (h0 : off ≠ 0) (hb : off.natAbs <
 theorem C06_time_of_day_roundtrip (m : Nat) (hm : m < 1440) (rest : List Char) :
     ParsesTo g_hour_minutes buildHourMinutes (Print.extTime m) rest m :=
   parses_hour_minutes m hm rest
+
+/-! ### the whole expression -/
+
+/-- the hypothesis of the round-trip theorem is the decidable predicate the driver evaluates on every
+expression the real parser returns (core-only restatement, definitionally the same) -/
+theorem C06_printableOut_is_the_hypothesis (e : Expr) :
+    OH.Model.Printable.printableOut e = PrintableOut e := rfl
+
+/-- **C06 (syntactic half)**: every expression within what the parser can build, printed by `Display`,
+parses back — to itself with the comments of each rule joined into one (`["a", "b"]` is written
+`"a, b"`), nothing else changed: same selectors, ranges, steps, offsets, time spans, modifiers,
+operators.  For ALL such expressions, on the grammar regenerated from grammar.pest on this run. -/
+theorem C06_parse_print_roundtrip (e : Expr) (h : OH.Model.Printable.printableOut e = true) :
+    Parser.parseChars (Print.expr e) = .ok (reparsed e) :=
+  parse_print_roundtrip e h
+
+/-- on strings: `to_string` does not panic and `parse (to_string e)` succeeds with that result -/
+theorem C06_toString_parse_roundtrip (e : Expr) (h : OH.Model.Printable.printableOut e = true) :
+    ∃ s, Print.toString? e = some s ∧ Parser.parse s = .ok (reparsed e) :=
+  toString_parse_roundtrip e h
+
+/-- an expression no rule of which has two comments comes back UNCHANGED -/
+theorem C06_roundtrip_identity (e : Expr) (h : OH.Model.Printable.printableOut e = true)
+    (hc : ∀ r ∈ e, r.comments.length ≤ 1) : Parser.parseChars (Print.expr e) = .ok e :=
+  parse_print_roundtrip_same e h hc
+
+/-- the round trip is idempotent: what comes back is within the class again and comes back unchanged -/
+theorem C06_roundtrip_idempotent (e : Expr) (h : OH.Model.Printable.printableOut e = true) :
+    OH.Model.Printable.printableOut (reparsed e) = true ∧
+      Parser.parseChars (Print.expr (reparsed e)) = .ok (reparsed e) :=
+  ⟨printableOut_reparsed e h, parse_print_reparsed e h⟩
+
+/-- `Display` never reaches its `unwrap` on such expressions -/
+theorem C06_print_never_panics (e : Expr) (h : OH.Model.Printable.printableOut e = true) :
+    Print.printPanics e = false :=
+  printable_no_panic e h
+
+/-- non-vacuity: a rule with years, a dated range with offsets, a week, weekdays with positions and
+an offset, a holiday, two time spans (an event with an offset, an open end) and two comments is in the
+class (evaluated by the kernel) -/
+example : OH.Model.Printable.printableOut
+    [⟨⟨[⟨2020, 2030, 2⟩], [.date (.fixed none 1 5) ⟨.next 0, 2⟩ (.easter none) ⟨.none, -1⟩], [⟨1, 53, 2⟩],
+        [.fixed 0 0 1 [true, false, false, false, true] [true, false, false, false, false], .holiday .pub 1]⟩,
+      [⟨.variable .sunrise 30, .fixed 1560, false, none⟩, ⟨.fixed 600, .fixed 1440, true, none⟩],
+      .unknown, .normal, ["a", "b"]⟩] = true := by decide +kernel
 
 end OH.Props.C06
